@@ -14,6 +14,11 @@ def parseOp (j : J) : Except String Op := do
   if k = "send" then pure (.send (← j.bytes "d"))
   else if k = "sendfast" then pure (.sendFast (← j.bytes "d") (← parseOutcome j))
   else if k = "pump" then pure (.pump (← parseOutcome j))
+  else if k = "pumprw" then
+    let r ← j.string "rx"
+    let rx ← if r = "data" then pure Rx.data else if r = "eof" then pure Rx.eof else if r = "error" then pure Rx.error
+             else throw s!"unknown rx {r}"
+    pure (.pumpRW rx (← parseOutcome j))
   else throw s!"unknown op {k}"
 
 def parseAct (j : J) : Except String Act := do
@@ -32,9 +37,11 @@ def handle (j : J) : Except String J := do
   let part ← j.string "part"
   if part = "A" then
     let ops ← (← j.array "ops").mapM parseOp
-    let s := run ops
+    let guard := match j.get? "guard" with | some (J.bool b) => b | _ => true
+    let s := runWith guard ops
     pure (J.mk [("accepted", J.ofBytes s.accepted), ("send_buf", J.ofBytes s.sendBuf), ("closed", J.bool s.closed),
-                ("close_events", J.ofNat s.closeEvents), ("offered", J.ofNat s.offered)])
+                ("close_events", J.ofNat s.closeEvents), ("offered", J.ofNat s.offered),
+                ("offered_after_fatal", J.ofNat s.offeredAfterClose)])
   else
     let acts ← (← j.array "acts").mapM parseAct
     let s := crun { pb := (← j.nat "pb") } acts
